@@ -582,12 +582,12 @@ def _(c):
         D = as_idmap(s.cur.directory_ids)
         me = mk_id(FS.fs_dev(s.cur.dirpath), FS.fs_ino(s.cur.dirpath))
         return z3.Contains(ids_of(D, s.cur.parent_dir), z3.Unit(me))
-    c.exc_ensures('loop-error-only-for-an-id-recorded-above', 'ManifestSymlinkLoop', x_loop)
+    c.exc_ensures('loop-error-only-for-an-id-recorded-above', 'ManifestSymlinkLoop', x_loop, internal=True)
 
     def x_dev(s):
         md = s.self.manifest_device
         return z3.And(z3.Not(OptInt_.is_none(md)), FS.fs_dev(s.cur.dirpath) != OptInt_.val(md))
-    c.exc_ensures('cross-device-error-only-for-a-directory-on-another-device', 'ManifestCrossDevice', x_dev)
+    c.exc_ensures('cross-device-error-only-for-a-directory-on-another-device', 'ManifestCrossDevice', x_dev, internal=True)
 
     def y_in(s, v):
         """what the directory's dict started from: the entry_dict slot of this directory (empty when there is none),
@@ -597,3 +597,166 @@ def _(c):
         expected = z3.If(z3.Or(z3.Select(vis, v[1]), OptEntMap.is_none(slot)), EMPTY_ENTMAP, OptEntMap.val(slot))
         return IN_(s) == expected
     c.yield_ensures('starts-from-the-entries-recorded-for-this-directory', y_in)
+
+
+# --------------------------------------------------------------------------
+# ManifestRecursiveLoader.assert_directory_verifies: aggregation over the walk and the pass over directories that are
+# listed but were never visited (C01, C07)
+
+SetOfSets = z3.ArraySort(z3.StringSort(), SetStr)
+EMPTY_SOS = z3.K(z3.StringSort(), EMPTYSET)
+BoolSeq = z3.SeqSort(z3.BoolSort())
+GEMATO_ERRORS = ['GematoException', 'OSError', '<opaque>']
+
+
+def _entry_dict_model(it, bound, node):
+    """trusted call-site view of get_file_entry_dict: some nested dict of path entries, or one of its errors"""
+    ctx = it.ctx
+    it.engine.assumed.add('contract of ManifestRecursiveLoader.get_file_entry_dict assumed at the call site: returns a '
+                          'dict directory -> name -> entry (body not under contract)')
+    d = ctx.choose(3, 'get_file_entry_dict')
+    if d == 1:
+        from vp.symex import PyRaise
+        raise PyRaise(VExc('GematoException', [], {}, line=getattr(node, 'lineno', None)))
+    if d == 2:
+        from vp.symex import PyRaise
+        e = VExc('OSError', [], {}, line=getattr(node, 'lineno', None))
+        e.attrs['errno'] = VInt(ctx.fresh_const('errno', z3.IntSort()))
+        raise PyRaise(e)
+    return DictT(Str, EntMap).fresh(ctx, 'entry_dict')
+
+
+@contract('gemato/recursiveloader.py', 'ManifestRecursiveLoader.get_file_entry_dict', props=['C01'])
+def _(c):
+    c.params(self=RL, path=Str, only_types=Any, verify_manifests=Bool)
+    c.trusted = True
+    c.model = _entry_dict_model
+    c.note('body (merging entries of all applicable Manifests) is outside the subset; exercised by the bounded stand-ins')
+
+
+def _imap_model(it, bound, node):
+    """A-pool: imap_unordered(f, xs) lazily yields f(x) for every x of xs (MultiprocessingPoolWrapper.map is the builtin
+    map).  For f = the per-directory verifier and xs = the walk generator this stands for: results R (one Bool per
+    directory the walk yields), the walk's effect on entry_dict (its proved loop invariant at exit: entry_dict is the
+    dict at function entry minus the directories visited), and any exception of either."""
+    ctx = it.ctx
+    it.engine.assumed.add('A-pool: imap_unordered(f, xs) lazily yields f(x) for every x of xs; the effect of consuming the '
+                          'walk generator on entry_dict is its proved exit invariant (entry dict minus visited directories)')
+    R = ctx.fresh_const('dir_results', BoolSeq)
+    res = VIter(VSeq(R, Bool, 'list'), 0)
+    res.lazy_results = True
+    ctx.ghost['dir_results'] = R
+    return res
+
+
+@contract('gemato/util.py', 'MultiprocessingPoolWrapper.imap_unordered', props=['C01', 'C07'])
+def _(c):
+    c.params(self=Obj('MultiprocessingPoolWrapper'), args=Any, kwargs=Any)
+    c.trusted = True
+    c.model = _imap_model
+
+
+@contract('gemato/recursiveloader.py', 'ManifestRecursiveLoader.assert_directory_verifies', props=['C01', 'C07', 'C18'])
+def _(c):
+    c.params(self=RL, path=Str, fail_handler=Any, last_mtime=Opt(Float))
+    c.returns(Bool)
+    c.only_raises(*GEMATO_ERRORS)
+    c.note('loops 1-3 belong to the nested generator (its own contract); loops 4 and 5 are the pass over listed directories '
+           'that the walk did not visit')
+
+    def setup(it, fr, bound):
+        ctx = it.ctx
+
+        def all_hook(itp, v, node):
+            c_ = itp.content(v) if isinstance(v, (VCell,)) else v
+            if isinstance(v, VIter) and getattr(v, 'lazy_results', False):
+                # all() applied to the lazy results: stops at the first False, later directories are never looked at
+                itp.ctx.ghost['short_circuit'] = True
+                c_ = v.seq
+            if isinstance(c_, VSeq) and c_.ety is Bool:
+                if 'consumed' not in itp.ctx.ghost:
+                    # list(...) was applied first: the walk ran to its end; its effect on entry_dict (walker invariant)
+                    vis = itp.ctx.fresh_const('visited', SetStr)
+                    ed = itp.load_name('entry_dict', itp.entry_frame)
+                    k = z3.Const('k!v', z3.StringSort())
+                    old = ed.content.t
+                    new = z3.Lambda([k], z3.If(z3.Select(vis, k), OptEntMap.none, z3.Select(old, k)))
+                    ed.content = VMap(new, Str, EntMap)
+                    itp.ctx.ghost['consumed'] = True
+                return VBool(z3.Not(z3.Contains(c_.t, z3.Unit(z3.BoolVal(False)))))
+            return None
+        it.engine.all_hook = all_hook
+    c.setup = setup
+
+    def verifier_setup(s, args, kwargs, raw):
+        return z3.And(args[0] == s.self.top_level_manifest_filename, opt_term(args[1], OptInt) == s.self.manifest_device,
+                      opt_term(args[3], OptReal) == opt_term(s.last_mtime, OptReal))
+    c.site('verifier-gets-the-loader-device-and-the-requested-mtime', 'SubprocessVerifier', verifier_setup)
+
+    def results(s):
+        R = s.ghost('dir_results', None)
+        return z3.BoolVal(True) if R is None else z3.Not(z3.Contains(R, z3.Unit(z3.BoolVal(False))))
+
+    GH = {'H': GhostT(SetOfSets), 'allok': Bool}
+
+    def ED_(s):
+        return s.cur.entry_dict
+
+    def in_keyset(s, r, f):
+        """f is a name recorded for directory r in entry_dict"""
+        cell = z3.Select(ED_(s), r)
+        return z3.And(z3.Not(OptEntMap.is_none(cell)), z3.Not(OptEnt.is_none(z3.Select(OptEntMap.val(cell), f))))
+
+    r_ = z3.Const('r!h', z3.StringSort())
+    f_ = z3.Const('f!h', z3.StringSort())
+
+    def ret_is_conjunction(s):
+        return s.cur.ret == z3.And(results(s), s.allok)
+
+    def handed_outer(s):
+        done = S.prefix_set(s, s.seq, s.i)
+        return z3.ForAll([r_, f_], z3.Select(z3.Select(s.H, r_), f_) == z3.And(z3.Select(done, r_), in_keyset(s, r_, f_)))
+
+    def upd5(s):
+        H, allok = s.Hin, s.okin
+        rel, f = s.cur.relpath, s.cur.f
+        for rec in s.calls:
+            if not rec[0].endswith('_verify_one_file'):
+                continue
+            a = rec[1]
+            e_arg = a[2]
+            right = z3.And(a[1] == join2(rel, f), a[0] == join2(s.self.root_directory, join2(rel, f)),
+                           e_arg.ref == s.cur.e.ref if hasattr(e_arg, 'ref') else z3.BoolVal(False))
+            H = z3.If(right, z3.Store(H, rel, z3.Store(z3.Select(H, rel), f, z3.BoolVal(True))), H)
+            allok = z3.And(allok, rec.result)
+        return {'Hin': H, 'okin': allok}
+
+    c.loop(4, header='for (relpath, dirdict) in entry_dict.items()', vars={'fpath': None, 'syspath': None, 'f': None, 'e': None},
+           ghosts=dict(GH), ghost_init=lambda s: {'H': EMPTY_SOS, 'allok': z3.BoolVal(True)},
+           # the inner loop leaves its own (latest) ghost values behind: they are this iteration's outcome
+           ghost_update=lambda s: {'H': s._fr.ghost_values['Hin'], 'allok': s._fr.ghost_values['okin']},
+           inv=[('result-is-the-conjunction-of-all-checks', ret_is_conjunction),
+                ('every-entry-of-the-directories-done-was-handed-to-a-check', handed_outer)],
+           assume_seq=lambda s: z3.And(S.prefix_set(s, s.seq, z3.Length(s.seq)) == _dom_m(ED_(s)), S.distinct(s, s.seq)),
+           assume_each=lambda s: S.distinct_at(s, s.seq, s.i))
+
+    c.loop(5, header='for (f, e) in dirdict.items()', vars={'fpath': None, 'syspath': None},
+           ghosts={'Hin': GhostT(SetOfSets), 'okin': Bool},
+           ghost_init=lambda s: {'Hin': s.H, 'okin': s.allok}, ghost_update=upd5,
+           inv=[('result-is-the-conjunction-of-all-checks', lambda s: s.cur.ret == z3.And(results(s), s.okin)),
+                ('entries-of-this-directory-handed-so-far',
+                 lambda s: s.Hin == z3.Store(s.H, s.cur.relpath, S.prefix_set(s, s.seq, s.i))),
+                ('this-directory-was-not-done-before', lambda s: z3.Select(s.H, s.cur.relpath) == EMPTYSET)],
+           assume_seq=lambda s: S.prefix_set(s, s.seq, z3.Length(s.seq)) == _dom(as_map(s.cur.dirdict)))
+
+    def post(s):
+        every = z3.ForAll([r_, f_], z3.Select(z3.Select(s.H, r_), f_) == in_keyset(s, r_, f_))
+        return z3.And(s.result == z3.And(results(s), s.allok), every)
+    c.ensures('true-only-if-every-check-passed-and-every-unvisited-entry-was-checked', post, internal=True)
+    c.ensures('directory-results-are-collected-before-they-are-combined',
+              lambda s: z3.BoolVal(not s.ghost('short_circuit', False)), internal=True)
+
+
+def _dom_m(d):
+    k = z3.Const('k', z3.StringSort())
+    return z3.Lambda([k], z3.Not(OptEntMap.is_none(z3.Select(d, k))))
